@@ -238,6 +238,38 @@ func runC09on(c *Check, w *World) {
 					if bArg >= 0 {
 						ctSites++
 						siteFns[f] = true
+						// S6: the comparison is not itself conditional on the verdict of another comparison of the code
+						// (two partial comparisons joined by && leak which part failed through the work done)
+						var dep ssa.Value
+						var find func(v ssa.Value, depth int)
+						find = func(v ssa.Value, depth int) {
+							if dep != nil || depth > 4 || v == nil {
+								return
+							}
+							if cl, isCall := v.(*ssa.Call); isCall {
+								if constantTimeComparators[CalleeName(cl.Common())] && cl != in {
+									dep = cl
+								}
+								return
+							}
+							if bo, isB := v.(*ssa.BinOp); isB {
+								find(bo.X, depth+1)
+								find(bo.Y, depth+1)
+							}
+							if ph, isP := v.(*ssa.Phi); isP {
+								for _, e := range ph.Edges {
+									find(e, depth+1)
+								}
+							}
+						}
+						for _, cd := range CondsAt(in.Block()) {
+							find(cd.V, 0)
+						}
+						if dep != nil {
+							c.Bad("S6", fname, construct+"@conditional", "this comparison of the code runs only if another comparison of part of the code succeeded: the work done reveals which part of a wrong code is correct", w.InstrPos(in))
+						} else {
+							c.OK("S6", fname, construct+"@unconditional", "the comparison does not depend on the verdict of another comparison", w.InstrPos(in))
+						}
 						c.OK("S3", fname, construct, "HMAC-derived value meets caller data inside a constant-time comparator", w.InstrPos(in))
 					} else {
 						c.OK("S3", fname, construct, "constant-time comparator on HMAC-derived values", w.InstrPos(in))
